@@ -152,7 +152,7 @@ inductive EpiStep where
 def epiStep (w : Nat) (s : EpiState) : EpiStep :=
   if w = 0xd65f03c0 ∨ w = 0xd65f0fff then .ret
   else if w = 0xd50323ff then .couldBeAuth
-  else if w >>> 26 = 0b000101 then (if s.spOff ≠ 0 then .tailCall else .body)
+  else if w >>> 26 = 0b000101 ∨ w &&& 0xfffffc1f = 0xd61f0000 then (if s.spOff ≠ 0 then .tailCall else .body)
   else if (w >>> 22) &&& 0b1011111001 = 0b1010100001 then
     let wb := (w >>> 23) &&& 0b11
     if wb = 0 then .body
